@@ -2803,7 +2803,7 @@ pub fn lift_fn(ctx: &mut Ctx, blk: &Block) -> Result<(String, Value), String> {
     let mut out_param = None;
     for a in &f.sig.inputs {
         match a {
-            syn::FnArg::Receiver(_) if blk.opt("tail_from").is_some() => {}
+            syn::FnArg::Receiver(_) if blk.opt("tail_from").is_some() || blk.opt("let_of").is_some() => {}
             syn::FnArg::Receiver(_) => {
                 let t = match &self_ty {
                     Some(st) => reg.types.get(st).cloned().unwrap_or(format!("L_{st}")),
@@ -2824,7 +2824,7 @@ pub fn lift_fn(ctx: &mut Ctx, blk: &Block) -> Result<(String, Value), String> {
                 }
                 let ty = match lift_type(reg, &t.ty, self_ty.as_deref()) {
                     Ok(t) => t,
-                    Err(_) if blk.opt("tail_from").is_some() => continue, // tail lifts declare what they read themselves
+                    Err(_) if blk.opt("tail_from").is_some() || blk.opt("let_of").is_some() => continue, // tail lifts declare what they read themselves
                     Err(e) => return Err(format!("parameter {pn}: {e}")),
                 };
                 params.push((pn, ty));
@@ -2968,9 +2968,66 @@ pub fn lift_fn(ctx: &mut Ctx, blk: &Block) -> Result<(String, Value), String> {
         }
         synth_block = Some(tail_blk);
     }
+    // L29 binding-as-function: `let_of=<local> tail_locals=a:T;b:U ret=<type>` lifts the initialiser of the (first) binding
+    // of <local> - wherever it sits, e.g. in the innermost of nested loops the lifter cannot read - as a function of the
+    // listed variables; every variable the initialiser reads must be listed
+    if let Some(lname) = blk.opt("let_of") {
+        struct FindLet<'x> { name: String, found: Option<&'x syn::Local> }
+        impl<'ast> syn::visit::Visit<'ast> for FindLet<'ast> {
+            fn visit_local(&mut self, l: &'ast syn::Local) {
+                if self.found.is_none() {
+                    let id = match &l.pat {
+                        syn::Pat::Ident(pi) => Some(pi.ident.to_string()),
+                        syn::Pat::Type(pt) => match &*pt.pat { syn::Pat::Ident(pi) => Some(pi.ident.to_string()), _ => None },
+                        _ => None,
+                    };
+                    if id.as_deref() == Some(self.name.as_str()) && l.init.is_some() {
+                        self.found = Some(l);
+                    }
+                }
+                syn::visit::visit_local(self, l);
+            }
+        }
+        let mut fl = FindLet { name: lname.to_string(), found: None };
+        syn::visit::Visit::visit_block(&mut fl, f.block);
+        let Some(l) = fl.found else { return Err(format!("lost anchor: no binding of `{lname}` in {path}")) };
+        let init = (*l.init.as_ref().unwrap().expr).clone();
+        params.clear();
+        for kv in blk.opt("tail_locals").unwrap_or("").split(';').filter(|x| !x.is_empty()) {
+            let (n, t) = kv.split_once(':').ok_or("tail_locals=name:type;...")?;
+            params.push((n.trim().to_string(), t.trim().to_string()));
+        }
+        // single lowercase identifiers the initialiser mentions must be listed (paths, method names and types are not variables)
+        struct Vars(Vec<String>);
+        impl<'ast> syn::visit::Visit<'ast> for Vars {
+            fn visit_expr_path(&mut self, p: &'ast syn::ExprPath) {
+                if let Some(i) = p.path.get_ident() {
+                    self.0.push(i.to_string());
+                }
+            }
+        }
+        let mut vs = Vars(vec![]);
+        syn::visit::Visit::visit_expr(&mut vs, &init);
+        let mut own: Vec<String> = Vec::new();
+        {
+            struct PB<'z>(&'z mut Vec<String>);
+            impl<'ast, 'z> syn::visit::Visit<'ast> for PB<'z> {
+                fn visit_pat_ident(&mut self, i: &'ast syn::PatIdent) {
+                    self.0.push(i.ident.to_string());
+                }
+            }
+            syn::visit::Visit::visit_expr(&mut PB(&mut own), &init);
+        }
+        for v_ in &vs.0 {
+            if !own.contains(v_) && !params.iter().any(|(n, _)| n == v_) && v_.chars().next().map(|c| c.is_lowercase()).unwrap_or(false) {
+                return Err(format!("construct outside rule list (lift): the initialiser of `{lname}` reads `{v_}`, which is not listed in tail_locals"));
+            }
+        }
+        synth_block = Some(syn::Block { brace_token: Default::default(), stmts: vec![syn::Stmt::Expr(init, None)] });
+    }
     let fblock: &syn::Block = synth_block.as_ref().unwrap_or(f.block);
     let ret_ty = match &f.sig.output {
-        _ if blk.opt("closure").is_some() || blk.opt("tail_from").is_some() => blk.opt("ret").ok_or("lift: closure= / tail_from= need ret=<type>")?.to_string(),
+        _ if blk.opt("closure").is_some() || blk.opt("tail_from").is_some() || blk.opt("let_of").is_some() => blk.opt("ret").ok_or("lift: closure= / tail_from= need ret=<type>")?.to_string(),
         // `ret=<type>` overrides a return type the type lifter cannot read (qualified associated types)
         _ if blk.opt("ret").is_some() => blk.opt("ret").unwrap().to_string(),
         syn::ReturnType::Default => match &out_param {
